@@ -700,7 +700,9 @@ def judge_phase(ctx, case, R, M, extern=None, tag=""):
     ctx.judge(sub_case(case, "py"), R["after"], R["before"], None, what="model parameter values after code generation" + tag)
     # the Lean hypothesis of C07_equiv_partial, restated on the wire form
     if M is not None:
-        in_scope = not (feats["dyn_coef"] or feats["var_without_eq"]) and len(case["content"]["vars"]) > 0
+        # (a variable no reaction changes is inside the hypothesis since the repair of F-C07-12; "no equation at
+        # all" = F-C07-3 is not)
+        in_scope = not (feats["dyn_coef"] or feats["no_eq"]) and len(case["content"]["vars"]) > 0
         if M["okC"] != in_scope:
             ctx.add_drift(sub_case(case, "py"), {"in_scope": in_scope}, {"okC": M["okC"]}, "hypothesis okC of C07_equiv_partial")
         ctx.hist["okC_true" if M["okC"] else "okC_false"] = ctx.hist.get("okC_true" if M["okC"] else "okC_false", 0) + 1
